@@ -9,6 +9,7 @@ package tmengine
 import (
 	"context"
 	"fmt"
+	"runtime"
 	"sort"
 
 	"github.com/gordian-engine/gordian/gcrypto"
@@ -61,7 +62,11 @@ func (st vzStores) gate(ctx context.Context, method string) error {
 		nd.w.s.ParkID(nd.ident(), "store", method)
 	}
 	if nd.isDead() {
-		return fmt.Errorf("process died before %s was applied: %w", method, context.Canceled)
+		// The process died before this write was applied. Nothing of the dead process runs on: the
+		// calling goroutine ends here (its deferred functions let the harness see the engine stop).
+		// Returning an error instead would make the dying incarnation act on a store failure that
+		// never happened (the replay path of the kernel panics on any store error).
+		runtime.Goexit()
 	}
 	st.d.writes++
 	nd.w.s.Logf("%s store %s (write %d)", nd.ident(), method, st.d.writes)
